@@ -43,7 +43,7 @@ def manual_instances(hyps, goal, sks, extra_cands=()):
     Needed because bound variables that occur only under a lambda (row sums, traces) give the solver no
     E-matching pattern; every instance is a logical consequence of its hypothesis, so this is sound."""
     cands = list(sks) + [c for c in _int_consts(goal) if not any(c.eq(s_) for s_ in sks)]
-    cands = [c for c in cands if c.sort() == z3.IntSort()][:8] + list(extra_cands)[:4]
+    cands = [c for c in cands if c.sort() == z3.IntSort()][:8] + list(extra_cands)[:10]
     out = []
     if not cands:
         return out
